@@ -87,10 +87,17 @@ impl<Octs: Octets> NotificationMessage<Octs> {
 
 impl<Octs: Octets> NotificationMessage<Octs> {
     pub fn from_octets(octets: Octs) -> Result<Self, ParseError> {
+        Self::check(&octets)?;
         Ok(NotificationMessage { octets })
     }
 
-    // TODO impl fn check()
+    fn check(octets: &Octs) -> Result<(), ParseError> {
+        let mut parser = Parser::from_ref(octets);
+        Header::check(&mut parser)?;
+        // error code and subcode, accessed by code() and details()
+        parser.advance(2)?;
+        Ok(())
+    }
 
     pub fn parse<'a, R>(parser: &mut Parser<'a, R>)
         -> Result<Self, ParseError>
